@@ -70,6 +70,12 @@ def faults_for(rng, m, directed, limit):
             big = [(fresh[i], fresh[i + 1]) for i in range(10)] + [(u, v)] + \
                   [(fresh[i], fresh[i + 1]) for i in range(11, 21)]
             out.append(("addfrom", big, t, None if t % 2 else t + 2))
+            out.append(("addfrom", big, t, t + 300))            # long spans in a bunch that fails half-way
+            if rng.random() < 0.04:
+                fresh = ["K%d" % i for i in range(1300)]
+                kilo = [(fresh[i], fresh[i + 1]) for i in range(600)] + [(u, v)] + \
+                       [(fresh[i], fresh[i + 1]) for i in range(601, 1250)]
+                out.append(("addfrom", kilo, t, None))               # a sized bunch of more than 1000 pairs
             if rng.random() < 0.15:
                 fresh = ["H%d" % i for i in range(140)]
                 huge = [(fresh[i], fresh[i + 1]) for i in range(60)] + [(u, v)] + \
